@@ -32,7 +32,7 @@ static const char* kProcFiles[] = {"meminfo",         "vmstat",
                                    "swaps",           "pressure/memory",
                                    "pressure/io",     "sys/vm/swappiness",
                                    "mempressure"};
-static const char* kKinds[] = {"absent", "empty", "eacces", "eisdir"};
+static const char* kKinds[] = {"absent", "empty", "eacces", "eisdir", "eio-mid"};
 
 // ------------------------------------------------------------- scenario
 static Json::Value plugin(const std::string& name) {
@@ -302,7 +302,7 @@ static Json::Value execVariant(bool wantAccesses) {
     std::vector<Rule> rules;
     for (const auto& f : R.plan["faults"]) {
       std::string k = f.get("k", "").asString();
-      if (k == "absent" || k == "eacces" || k == "eisdir")
+      if (k == "absent" || k == "eacces" || k == "eisdir" || k == "eio-mid")
         rules.push_back({f.get("file", "*").asString(),
                          f.get("cg", "*").asString(),
                          f.get("tick", -1).asInt()});
@@ -543,6 +543,9 @@ static std::vector<Variant> enumerate(const Json::Value& scenario,
           if (std::string(file) == "." || std::string(file) == "#readdir")
             continue;
           v.emptyFiles.emplace_back(scope, file);
+        } else if (k == "eio-mid" && (std::string(file) == "." ||
+                                      std::string(file) == "#readdir")) {
+          continue; // directories are not read as streams
         } else {
           v.faults.append(rule(k, file, scope));
         }
